@@ -87,9 +87,14 @@ class Gen:
     # ---------------- AST
     def items(self, depth=None, nlocals=0, kinds=None):
         R = self.R
+        top = depth is None
         depth = self.depth if depth is None else depth
         kinds = kinds or self.kinds
         out = []
+        if not top:
+            r = R.random()
+            if r < 0.06: return []                       # an empty body / block
+            if r < 0.10: return [("cmt", R.choice(self.cmt_bodies))]   # a comment-only body
         for _ in range(R.randint(1, self.max_items)):
             k = R.choice(kinds if depth > 0 else [x for x in kinds if x in ("text", "esc", "cmt", "expr")] or ["text"])
             if k == "text":
@@ -120,8 +125,23 @@ class Gen:
                 blocks = []
                 for _ in range(self.callees[name]):
                     r = R.random()
-                    blocks.append([] if r < 0.15 else [("cmt", " only ")] if r < 0.3 else self.items(depth - 1, nlocals))
+                    blocks.append([] if r < 0.15 else [("cmt", " only ")] if r < 0.3 else self.dironly(depth - 1, nlocals) if r < 0.5 and depth > 1 else self.items(depth - 1, nlocals))
                 out.append(("call", name, R.randrange(NEXPR + nlocals), blocks))
+        return out
+
+    def dironly(self, depth, nlocals):
+        """a block with no text of its own: comments and @if / @for directives whose branches are, each independently, empty, comment-only or real content"""
+        R = self.R
+        br = lambda: [] if R.random() < 0.35 else [("cmt", R.choice(self.cmt_bodies))] if R.random() < 0.4 else self.items(depth - 1, nlocals, kinds=["text", "expr", "esc"])
+        out = []
+        for _ in range(R.randint(1, 2)):
+            if R.random() < 0.3: out.append(("cmt", R.choice(self.cmt_bodies)))
+            if R.random() < 0.75:
+                chain = [(R.randrange(len(CONDS)), br()) for _ in range(R.randint(1, 2))]
+                out.append(("if", chain, br() if R.random() < 0.8 else None))
+            else:
+                kind = R.randrange(6); v = self.var(); w = self.var()
+                out.append(("for", kind, v, w, self.items(depth - 1, nlocals + (1 if kind in (0, 1, 4) else 2), kinds=["text", "expr", "cmt"])))
         return out
 
     # ---------------- printing
@@ -249,13 +269,25 @@ def render_callee(name, val, thunks, callee_bodies):
 PRELUDE = "@use super::wrap_html;\n"
 STRUCT_P = "pub struct P { pub a: u32, pub b: u32 }"
 
-def make_template(g, items, mode, uses=("super::wrap_html",), lead="|"):
+def decl_variant(rng):
+    """the standard declaration with other whitespace inside it (around colons, after commas, inside the parentheses): same function behaviour"""
+    import re
+    ps = [p.split(": ", 1) for p in re.split(r", (?=[a-z]+: )", DECL)]
+    colon = lambda: rng.choice([": ", ":", " : ", " :", ":  ", ":\n   ", ":\t"])
+    comma = lambda: rng.choice([", ", ",", ",\n  ", ",  "])
+    out = rng.choice(["", " ", "\n  "])
+    for i, (n, t) in enumerate(ps):
+        out += n + colon() + t + (comma() if i + 1 < len(ps) else rng.choice(["", " ", "\n"]))
+    return out
+
+def make_template(g, items, mode, uses=("super::wrap_html",), lead="|", decl=None):
     g.mode = mode
     body = g.pr(items, [], "")
+    decl = decl or DECL
     if mode == "canon":
-        head = "".join("@use %s;\n" % u for u in uses) + "@(" + DECL + ")\n"
+        head = "".join("@use %s;\n" % u for u in uses) + "@(" + decl + ")\n"
     else:
-        head = g.sp() + "".join("@use %s;" % u + g.sp() for u in uses) + "@(" + DECL + ")" + g.sp()
+        head = g.sp() + "".join("@use %s;" % u + g.sp() for u in uses) + "@(" + decl + ")" + g.sp()
     return head + lead + body
 
 def expected(g, items, lead="|", callee_bodies=None):
